@@ -46,8 +46,9 @@ def run(tier, repo):
                  why_ok="guard with truth table {33..255} present on %d path(s)" % n)
     gs = guards_of("tls_handshake::parse_tls_handshake_client_hello")
     txt = [sym_str(g[1]) for g in gs]
-    rp.check(any("% 2" in t and "remaining <" in t for t in txt), "HS-REJECT", "cipher-list-odd-or-overlong", "src/tls_handshake.rs", "odd / overlong cipher-suite list is not rejected", found=txt)
-    rp.check(len([t for t in txt if t.startswith("(remaining <")]) >= 1, "HS-REJECT", "compression-list-overlong", "src/tls_handshake.rs", "overlong compression list is not rejected", found=txt)
+    odd = tt(lambda x: x % 2 == 1, 16)
+    rp.check(any(g[1][0] == "tt" and g[1][2:] == odd for g in gs), "HS-REJECT", "cipher-list-odd", "src/tls_handshake.rs", "odd cipher-suite list length is not rejected", found=txt)
+    rp.check(len([t for t in txt if t.startswith("(remaining <")]) >= 2, "HS-REJECT", "cipher-and-compression-list-overlong", "src/tls_handshake.rs", "overlong cipher / compression list is not rejected", found=txt)
     gs = guards_of("tls_handshake::parse_tls_handshake_msg_newsessionticket")
     rp.check(any(sym_str(g[1]) == "($arg1 < 4)" for g in gs), "HS-REJECT", "ticket<4", "src/tls_handshake.rs", "NewSessionTicket shorter than 4 bytes is not rejected before len-4", found=[sym_str(g[1]) for g in gs])
     rp.floor("grammar_functions", len(res), 21)
